@@ -255,11 +255,41 @@ pub fn build(rng: &mut Rng, kind: Kind, deep: bool) -> Option<Faulty> {
         }
         Kind::OverLit | Kind::OverDist | Kind::OverCl | Kind::IncompleteLit | Kind::IncompleteDist | Kind::IncompleteCl
         | Kind::Hlit287 | Kind::Hlit288 | Kind::Hdist31 | Kind::Hdist32 | Kind::Rep16First | Kind::RepOverflow => {
-            let n = 10 + rng.below(80);
-            plain_tokens(&mut b, rng, n);
+            // a third of the over-subscribed sets are "flat": more than 2^l codes of length l and
+            // nothing longer (l = 1, 2) - the degenerate shapes a merged complete/incomplete
+            // check is most likely to let through
+            let flat_l = 1 + rng.below(2) as u8;
+            let flat_d = kind == Kind::OverDist && rng.chance(1, 3);
+            let flat_lit = kind == Kind::OverLit && rng.chance(1, 3);
+            if flat_lit {
+                // at most 2^l - 1 distinct literals, no matches
+                let nd = 1 + rng.below((1usize << flat_l) - 1);
+                let alpha: Vec<u8> = (0..nd).map(|_| 3 + rng.below(250) as u8).collect();
+                for _ in 0..5 + rng.below(40) {
+                    b.lit(*rng.pick(&alpha));
+                }
+            } else if flat_d {
+                // literals plus matches that use at most 2^l distinct distance symbols
+                for i in 0..10 + rng.below(30) {
+                    b.lit(b'a' + (i % 7) as u8);
+                }
+                let ds: Vec<usize> = (0..(1usize << flat_l)).map(|_| 1 + rng.below(4)).collect();
+                for _ in 0..1 + rng.below(6) {
+                    b.mat(3 + rng.below(30), *rng.pick(&ds));
+                    b.lit(b'z');
+                }
+            } else {
+                let n = 10 + rng.below(80);
+                plain_tokens(&mut b, rng, n);
+            }
             let mut o = DynOpts::random(rng);
+            if flat_lit {
+                o.fault = DynFault::OverLitFlat(flat_l);
+            }
             o.fault = match kind {
+                Kind::OverLit if flat_lit => DynFault::OverLitFlat(flat_l),
                 Kind::OverLit => DynFault::OverLit,
+                Kind::OverDist if flat_d => DynFault::OverDistFlat(flat_l),
                 Kind::OverDist => DynFault::OverDist,
                 Kind::OverCl => DynFault::OverCl,
                 Kind::IncompleteLit => DynFault::IncompleteLit,
@@ -326,6 +356,21 @@ pub fn build(rng: &mut Rng, kind: Kind, deep: bool) -> Option<Faulty> {
             tail(&mut b, rng);
         }
         Kind::DistanceBeforeStart => {
+            // sometimes with most of a window already produced, so that the bad distance is a
+            // large one and is met far into the output (past any small-position special case)
+            if deep && rng.chance(1, 3) {
+                let want = 16_000 + rng.below(16_700);
+                if rng.bool() {
+                    let d = rng.bytes(want.saturating_sub(b.out_len()).max(1));
+                    b.stored(&d, false, 0);
+                } else {
+                    b.lit(b'x');
+                    while b.out_len() + 258 < want {
+                        b.mat(258, 1);
+                    }
+                    b.end_fixed(false);
+                }
+            }
             {
                 let n = rng.below(40);
                 plain_tokens(&mut b, rng, n);
